@@ -149,6 +149,17 @@ def gen_pairs(ctx):
                 lo = 0
             pairs.append(('cost', {'param': key, 'lo': lo, 'hi': hi, 'econ': econm, 'enduse': eu, 'plant': pl},
                           replace(cfg, key, lo), replace(cfg, key, hi)))
+    # BICYCLE with a high combined income tax rate and no tax credit: the income-tax term is then the largest term of the
+    # levelized cost, so a sign slip in it reverses the response to a capital cost input (at ordinary rates it only shifts it)
+    for (eu, pl) in ((1, 1), (2, 9), (2, 5), (2, 6), (31, 2), (42, 3), (52, 4)):
+        for key, lo0, hi0 in (('Reservoir Stimulation Capital Cost', 0.5, 12), ('Well Drilling and Completion Capital Cost Adjustment Factor', 0.5, 3))[:n + 1]:
+            cfg = [(k, v) for k, v in configs.synthetic(rnd, enduse=eu, plant=pl, econ=3, addons=False)
+                   if k not in ('Total Capital Cost', 'Investment Tax Credit Rate', 'Combined Income Tax Rate', key,
+                                key.replace(' Adjustment Factor', ''))]
+            cfg.append(('Combined Income Tax Rate', configs.fmt(configs.dec(rnd, 0.7, 0.95, 2))))
+            lo, hi = two_values(rnd, lo0, hi0, 2)
+            pairs.append(('cost', {'param': key, 'lo': lo, 'hi': hi, 'econ': 3, 'enduse': eu, 'plant': pl, 'high_tax_rate': True},
+                          replace(cfg, key, lo), replace(cfg, key, hi)))
     return pairs
 
 
